@@ -272,7 +272,7 @@ func (e *Engine) runPath(fn *ssa.Function, prefix []bool) {
 	for _, p := range e.cfg.InitPkgs {
 		pkg := e.prog.ImportedPackage(p)
 		if pkg == nil {
-			e.abort("unsupported", "init package %s not loaded", p)
+			continue // not part of this harness's import closure
 		}
 		e.runInit(pkg)
 	}
